@@ -14,7 +14,9 @@ import struct
 from mc import boot  # noqa: F401
 from mc import catalogue as C, engine
 from mc.parsecheck import compare_parse
-from mc.refmodel import layout as L
+from mc.refmodel import core as ref, layout as L
+
+from pyubx2 import UBXReader
 
 PROP = "C02"
 
@@ -173,7 +175,33 @@ def judge(mode, clsid, payload, pbf):
 
 
 def replay_case(case):
+    if "reader" in case:
+        return _replay_reader(case)
     st, out, _ = judge(case["mode"], bytes.fromhex(case["clsid"]), bytes.fromhex(case["payload"]), case["pbf"])
+    return out
+
+
+def _replay_reader(case):
+    import io
+    order = [bytes.fromhex(f) for f in case["reader"]]
+    rd = UBXReader(io.BytesIO(b"".join(order)), msgmode=case["rmode"], parsebitfield=case["pbf"], quitonerror=0)
+    out = []
+    try:
+        got = {raw: parsed for raw, parsed in rd}
+    except Exception as ex:  # noqa: BLE001
+        return [(f"reader_raises|{type(ex).__name__}", str(ex))]
+    for fr in order:
+        cid, pl = fr[2:4], fr[6:-2]
+        try:
+            mode = UBXReader.parse(fr, msgmode=3).msgmode if case["rmode"] == 3 else 0
+        except Exception:  # noqa: BLE001
+            continue
+        w, key = C.walk_frame(mode, cid, pl, case["pbf"])
+        label = f"{C.MODENAME[mode]}:{key}"
+        if got.get(fr) is None:
+            out.append((f"conforming_payload_refused|{label}|pbf={case['pbf']}|by_reader", ""))
+            continue
+        out += [(k + "|by_reader", d) for k, d in compare_parse(mode, cid, pl, case["pbf"], None, got[fr])[1]]
     return out
 
 
@@ -235,6 +263,58 @@ def eval_block(block, acc):
                             continue
                         for pbf in (1, 0):
                             record(acc, e.mode, e.clsid, pl, pbf, "crossmode", e.label)
+    elif kind == "reader":
+        # the same decoding through a stream reader: the frames of every message defined in several modes, one
+        # after the other in both orders, read by ONE reader (SET and POLL frames by a SETPOLL reader, GET frames
+        # by a GET reader); each delivered message is compared with the reference like a direct parse
+        import io
+        by = {}
+        for e in C.entries():
+            if e.routed and not C.invalid_types(e.pdict) and e.clsid:
+                by.setdefault(e.clsid, []).append(e)
+        groups = [g for _, g in sorted(by.items()) if len({x.mode for x in g}) > 1]
+        for g in groups[block[1]::block[2]]:
+            for rmode, modes in ((3, (1, 2)), (0, (0,))):
+                frames = {}
+                for e in g:
+                    if e.mode not in modes:
+                        continue
+                    for cnt in (2, 1):
+                        pl = C.build_payload(e, lambda x: cnt, cnt, bg)
+                        if pl is None:
+                            continue
+                        fr = ref.frame(e.clsid[0], e.clsid[1], pl)
+                        if rmode == 3:
+                            try:  # frames whose mode the SETPOLL heuristic itself mis-resolves are C17's business
+                                if UBXReader.parse(fr, msgmode=3).msgmode != e.mode:
+                                    continue
+                            except Exception:  # noqa: BLE001
+                                continue
+                        frames.setdefault(fr, (e, pl))
+                if len(frames) < 2:
+                    continue
+                for order in (list(frames), list(frames)[::-1]):
+                    for pbf in (1, 0):
+                        rd = UBXReader(io.BytesIO(b"".join(order)), msgmode=rmode, parsebitfield=pbf, quitonerror=0)
+                        got = {}
+                        try:
+                            for raw, parsed in rd:
+                                got[raw] = parsed
+                                if len(got) > len(order) + 2:
+                                    break
+                        except Exception as ex:  # noqa: BLE001
+                            acc.violation(f"reader_raises|{type(ex).__name__}", {"reader": [f.hex() for f in order], "rmode": rmode, "pbf": pbf}, str(ex))
+                            continue
+                        for fr in order:
+                            e, pl = frames[fr]
+                            acc.evaluations += 1
+                            if got.get(fr) is None:
+                                acc.violation(f"conforming_payload_refused|{e.label}|pbf={pbf}|by_reader", {"reader": [f.hex() for f in order], "rmode": rmode, "pbf": pbf}, f"frame {fr.hex()[:40]} not delivered")
+                                continue
+                            st, out, n = compare_parse(e.mode, e.clsid, pl, pbf, None, got[fr])
+                            acc.transitions += n
+                            for key, detail in out:
+                                acc.violation(key + "|by_reader", {"reader": [f.hex() for f in order], "rmode": rmode, "pbf": pbf}, detail)
     elif kind == "afterfail":
         # ~1,000 operations that fail inside a group, then every definition parsed again in the same process
         from mc import failops
@@ -277,6 +357,7 @@ def run_tier(tier, t0):
     blocks += [("cfgdb", 32 * i, 8, q) for i in range(8)]
     blocks += [("crossmode", i, 8, q) for i in range(8)]
     blocks += [("afterfail", q)]
+    blocks += [("reader", i, 8, q) for i in range(8)]
     acc = engine.sweep(blocks, eval_block)
     routed = [e for e in ents if e.routed]
     covered = {k[0] for k in acc.outcomes}
@@ -288,7 +369,7 @@ def run_tier(tier, t0):
             + ("a 16-value boundary set" if q else "every value 0..255 (1-byte / bit-flag sizes)")
             + ", 2-byte sizes on {0,1,2,3,255,256,257,1000}; variable-by-size groups with 0,1,2,3,17 members; value plan: one field at a time over its "
             "type's boundary values on a distinct-byte background, flags with neighbours all-0/all-1; variant sweep: every discriminator value 0..255 and every length 0..64} "
-            "x parsebitfield {1,0}; plus CFG-VALGET / CFG-VALSET payloads holding every key of the configuration database (32 per payload), and every message defined in more than one mode parsed mode after mode in one process, both orders, and every definition parsed again after a sweep of ~1,000 operations that fail inside a group. states = distinct (definition, field, nesting depth) positions of the layout; transitions = attributes compared with the "
+            "x parsebitfield {1,0}; plus CFG-VALGET / CFG-VALSET payloads holding every key of the configuration database (32 per payload), and every message defined in more than one mode parsed mode after mode in one process, both orders (directly, and as one stream through a single SETPOLL / GET reader), and every definition parsed again after a sweep of ~1,000 operations that fail inside a group. states = distinct (definition, field, nesting depth) positions of the layout; transitions = attributes compared with the "
             "reference codec. distinct_nontrivial = distinct (definition, view, verdict) classes"
         ),
         assumptions=[
